@@ -206,7 +206,7 @@ Qed.
    block structure: the outer handler runs for an exception the inner block handled ... *)
 Definition d3_witness : prog := PTry (PTry (PThrow 0 5) [0] (PTick 1)) [] (PTick 2).
 (* ... and with a non-matching outer filter the program dies although nothing is unhandled *)
-Definition d3_witness_dies : prog := PSeq (PTry (PTry (PThrow 0 5) [0] (PTick 1)) [1] (PTick 2)) (PTick 3).
+Definition d3_witness_dies : prog := PSeq (PTry (PTry (PThrow 0 5) [0] (PTick 1)) [10] (PTick 2)) (PTick 3).
 
 Lemma unrepaired_refuted :
   exists p, nesting p <= exc_max_depth /\
@@ -220,23 +220,23 @@ Proof. exists d3_witness_dies. split; [apply Nat.leb_le; vm_compute; reflexivity
 
 (* ------------------------------------------------------------------ the structured semantics, read declaratively *)
 
-Lemma matches_spec : forall fs k, matches fs k = true <-> (fs = [] \/ In k fs).
+Lemma matches_spec : forall fs k, matches fs k = true <-> accepts fs k.
 Proof.
-  intros fs k. unfold matches. destruct fs as [|f fs'].
+  intros fs k. unfold matches, accepts. destruct fs as [|f fs'].
   - split; auto.
   - rewrite existsb_exists. split.
-    + intros (x & Hin & Heq). apply Nat.eqb_eq in Heq. subst x. now right.
-    + intros [H|H]; [discriminate|]. exists k. split; [exact H | apply Nat.eqb_refl].
+    + intros (x & Hin & Heq). apply Nat.eqb_eq in Heq. right. now exists x.
+    + intros [H|(x & Hin & Heq)]; [discriminate|]. exists x. split; [exact Hin | now apply Nat.eqb_eq].
 Qed.
 
-Lemma matches_false_spec : forall fs k, matches fs k = false <-> (fs <> [] /\ ~ In k fs).
+Lemma matches_false_spec : forall fs k, matches fs k = false <-> rejects fs k.
 Proof.
-  intros fs k. split.
+  intros fs k. unfold rejects. split.
   - intros H. split.
     + intros ->. discriminate.
-    + intros Hin. assert (matches fs k = true) by (apply matches_spec; now right). congruence.
+    + intros f Hin Heq. assert (matches fs k = true) by (apply matches_spec; right; now exists f). congruence.
   - intros (Hne & Hnin). destruct (matches fs k) eqn:E; [|reflexivity].
-    apply matches_spec in E. destruct E; contradiction.
+    apply matches_spec in E. destruct E as [E|(f & Hin & Heq)]; [contradiction|]. exfalso. exact (Hnin f Hin Heq).
 Qed.
 
 Lemma ref_run_eval : forall p d, eval d p (fst (ref_run d p)) (snd (ref_run d p)).
@@ -255,7 +255,7 @@ Proof.
     + destruct (matches fs k) eqn:Hm.
       * destruct (ref_run d h) as [t2 r2]; cbn [fst snd] in *.
         apply EvTryHandled; [exact IHb | now apply matches_spec | exact IHh].
-      * apply matches_false_spec in Hm. destruct Hm. now apply EvTryPassed.
+      * apply matches_false_spec in Hm. now apply EvTryPassed.
   - constructor. apply IHp.
 Qed.
 
@@ -302,7 +302,7 @@ Qed.
 Lemma handler_runs_iff : forall d b fs h t r,
   eval d (PTry b fs h) t r ->
   forall t1 r1, eval (S d) b t1 r1 ->
-  ((exists k m, r1 = RRaised k m /\ (fs = [] \/ In k fs)) <->
+  ((exists k m, r1 = RRaised k m /\ accepts fs k) <->
    (exists k m t2, t = t1 ++ EHandler k m d :: t2)) /\
   (forall k m t2, t = t1 ++ EHandler k m d :: t2 -> r1 = RRaised k m /\ exists r2, eval d h t2 r2 /\ r = r2).
 Proof.
@@ -319,9 +319,9 @@ Proof.
       * split; [intros _; now exists k, m, t2 | intros _; exists k, m; split; [reflexivity | now apply matches_spec]].
       * intros k' m' t2' E. apply app_inv_head in E. inversion E; subst.
         split; [reflexivity|]. exists r. split; [now apply eval_iff_ref_run | reflexivity].
-    + inversion He; subst. apply matches_false_spec in Hm. destruct Hm as (Hne & Hnin). split.
+    + inversion He; subst. assert (Hm' := Hm). apply matches_false_spec in Hm. split.
       * split.
-        -- intros (k' & m' & Hk & [Hf|Hin]); inversion Hk; subst; contradiction.
+        -- intros (k' & m' & Hk & Hacc). inversion Hk; subst. apply matches_spec in Hacc. congruence.
         -- intros (k' & m' & t2 & E). now apply Hnil in E.
       * intros k' m' t2 E. now apply Hnil in E.
 Qed.
@@ -375,8 +375,8 @@ Qed.
 Lemma machine_nearest_matching_handler : forall pre fs h p st t1 k m,
   depth st + nesting (chain (pre ++ [(fs, h)]) p) <= exc_max_depth ->
   ref_run (S (length pre + depth st)) p = (t1, RRaised k m) ->
-  Forall (fun lv => fst lv <> [] /\ ~ In k (fst lv)) pre ->
-  (fs = [] \/ In k fs) ->
+  Forall (fun lv => rejects (fst lv) k) pre ->
+  accepts fs k ->
   let '(tr, r, st') := mach (chain (pre ++ [(fs, h)]) p) st in
   let '(t2, r2) := ref_run (depth st) h in
   tr = t1 ++ EHandler k m (depth st) :: t2 /\ depth st' = depth st /\
@@ -397,7 +397,7 @@ Qed.
 Lemma machine_nobody_matches : forall pre p t1 k m,
   nesting (chain pre p) <= exc_max_depth ->
   ref_run (length pre) p = (t1, RRaised k m) ->
-  Forall (fun lv => fst lv <> [] /\ ~ In k (fst lv)) pre ->
+  Forall (fun lv => rejects (fst lv) k) pre ->
   let '(tr, r, st') := mach (chain pre p) st_init in
   tr = t1 /\ r = MDied (Some k) m /\ depth st' = 0.
 Proof.
@@ -424,15 +424,15 @@ Qed.
 
 Lemma foreach_from : forall k post pre c fuel,
   NoDup (pre ++ c :: post) -> length post + 2 <= fuel ->
-  foreach_matches fuel (pre ++ c :: post) (Some c) k = Some (existsb (Nat.eqb k) (c :: post)).
+  foreach_matches fuel (pre ++ c :: post) (Some c) k = Some (existsb (fun f => kind_of f =? kind_of k) (c :: post)).
 Proof.
   intros k. induction post as [|x post IH]; intros pre c fuel Hnd Hf.
   - destruct fuel as [|[|f]]; cbn [length] in Hf; try lia.
-    cbn [foreach_matches existsb]. destruct (k =? c); [reflexivity|].
+    cbn [foreach_matches existsb]. destruct (kind_of c =? kind_of k); [reflexivity|].
     rewrite tuple_next_at; [reflexivity|].
     apply NoDup_remove_2 in Hnd. intros H. apply Hnd. rewrite app_nil_r. exact H.
   - destruct fuel as [|f]; cbn [length] in Hf; [lia|].
-    cbn [foreach_matches]. cbn [existsb]. destruct (k =? c); [reflexivity|]. cbn [orb].
+    cbn [foreach_matches]. cbn [existsb]. destruct (kind_of c =? kind_of k); [reflexivity|]. cbn [orb].
     rewrite tuple_next_at.
     + cbn [hd_error].
       replace (pre ++ c :: x :: post) with ((pre ++ [c]) ++ x :: post) in * by (now rewrite <- app_assoc).
@@ -451,5 +451,24 @@ Qed.
 
 (* ... and never finishes on a filter that names an object twice, when that object is not the thrown one *)
 Lemma foreach_diverges_on_duplicate : forall fuel,
-  foreach_matches fuel [0; 0] (hd_error [0; 0]) 1 = None.
+  foreach_matches fuel [0; 0] (hd_error [0; 0]) 10 = None.
 Proof. induction fuel as [|f IH]; [reflexivity|]. cbn. exact IH. Qed.
+
+(* ------------------------------------------------------------------ identity of the bound object *)
+
+(* "The object bound in the handler is the one that was thrown" — by identity, also when an object
+   that is `eq` to it (same kind) was thrown and handled just before and is still held in the
+   record, and whatever the two messages are (0 = empty format). *)
+Lemma bound_object_is_thrown_identity : forall o1 o2 m1 m2 fs,
+  accepts fs o2 ->
+  fst (mach (PSeq (PTry (PThrow o1 m1) [] PSkip) (PTry (PThrow o2 m2) fs PSkip)) st_init)
+  = ([EHandler o1 m1 0; EHandler o2 m2 0], MNormal).
+Proof.
+  intros o1 o2 m1 m2 fs Hacc. apply matches_spec in Hacc.
+  set (P := PSeq (PTry (PThrow o1 m1) [] PSkip) (PTry (PThrow o2 m2) fs PSkip)).
+  assert (Hn : nesting P <= exc_max_depth) by (apply Nat.leb_le; reflexivity).
+  pose proof (whole_program P Hn) as H.
+  destruct (mach P st_init) as [[tr r] st']. cbn [fst].
+  unfold P in H. cbn [ref_run matches app] in H. rewrite Hacc in H. cbn [app] in H.
+  destruct H as (-> & _ & ->). reflexivity.
+Qed.
